@@ -1,0 +1,27 @@
+//go:build verif
+
+// Contracts for package logformat (comment-only; read by /verif/govc).
+
+package logformat
+
+//@ func newDefaultParser
+//@   assigns nothing
+//@   ensures [nonnil] result0 != nil && isnil(result1)
+//@ func newGenericParser
+//@   assigns nothing
+//@   ensures [nonnil] result0 != nil && isnil(result1)
+//@ func newGenericKVParser
+//@   assigns nothing
+//@   ensures [nonnil] result0 != nil && isnil(result1)
+//@ func newCSVParser
+//@   assigns nothing
+//@   ensures [nonnil] result0 != nil && isnil(result1)
+//@ func NewParser
+//@   assigns nothing
+//@   ensures [nonnil-on-success] implies(isnil(result1), !isnil(result0))
+//@   ensures [generic-always-works] implies(logFormatName == "generic", isnil(result1))
+
+// Parser.MakeFields: never panics; on success the field map exists.
+//@ iface Parser.MakeFields
+//@   assigns nothing
+//@   ensures [fields] implies(isnil(result1), result0 != nil)
